@@ -112,14 +112,17 @@ def correspond(ctx, exe, thorough):
 def run(ctx):
     ctx.rule = ('for every field of every record kind of the four format tables: every lattice value of its type (reals: sign x '
                 'decimal exponent -120..120 (quick: 14 boundary exponents) x 12 mantissa patterns + random; integers 10^k-1, 10^k, -10^(k-1) up to one past the width; '
-                'names of length 0..width+1; None) written with exactly fitting neighbours; distinct by (table, record, field, value), non-trivial unless the value is None')
+                'names of length 0..width+1; None) written with exactly fitting neighbours; distinct by (table, record, field, value), non-trivial unless the value is None. '
+                'File level: every record kind of the four tables x {neutral, mixed boundary values with an absent one, latin-1 names, a name with 3-byte characters} written with write_values '
+                'to real files through the library parser classes and read back with read_values, in two fresh processes creating all parsers in opposite orders')
     ctx.trusted += ['Coq 8.16.1 kernel (coqc); vm_compute for the finite table obligations; no native_compute',
                     'translator tools/translate/tables.py (AST literal evaluator, fail-closed; its output is compared with the imported tables on every run)',
                     'Base/Fmt.v (model of Python %-formatting for d, s, e, f on exact doubles) and Base/FixedFormat.v (model of fixed_format_file): hand-written, run against the implementation on the lattice on every run',
                     'Base/PyNum.v float()/int() grammar (validated in C16; here by the parser correspondence); float() is modelled up to the decimal the text denotes: the final decimal->double rounding (strtod) is CPython, not modelled',
                     'stdlib Decimal*/DecimalString (the model prints integers with NilZero.string_of_uint (N.to_uint n)); QArith for the accuracy statements', 'extraction: ExtrOcamlBasic + ExtrOcamlString, OCaml 4.13.1, ocaml/main.ml',
                     "CPython's float formatting/strtod as the ground truth of the correspondence"]
-    ctx.assumptions += ['values are str / int / finite float / None (inf, nan, %g formats and %s of a float are outside the model)']
+    ctx.assumptions += ['values are str / int / finite float / None (inf, nan, %g formats and %s of a float are outside the model)',
+                        'the Coq model is over byte strings (ASCII / latin-1, one character = one column); the file encoding layer (open() with the locale encoding, non-ASCII names) is not modelled: it is covered only by the file-level oracle (a test)']
     ctx.stage()
     tabs = translate(ctx)
     exe = None
@@ -135,6 +138,7 @@ def run(ctx):
         exe = vf.build_driver(ctx)
     if exe: correspond(ctx, exe, ctx.thorough)
     orc.sweep(ctx, thorough=ctx.thorough)
+    orc.file_sweep(ctx, thorough=ctx.thorough)
 
     def deep(broken):
         if not ctx.thorough: orc.sweep(ctx, thorough=True)
@@ -143,6 +147,7 @@ def run(ctx):
 
 def replay(ctx, data):
     inp = data.get('input') or {}
+    if 'file' in inp: return orc.file_replay(ctx, inp)
     if 'table' not in inp: return True
     tmpdir = tempfile.mkdtemp(prefix='c02r_')
     try:
